@@ -344,7 +344,7 @@ func predIndex(b, p *ssa.BasicBlock) int {
 
 // phiName returns the source-level name of a phi.
 func phiName(p *ssa.Phi) string {
-	return p.Comment
+	return strings.ReplaceAll(p.Comment, ".", "_")
 }
 
 func (e *Env) bindLoopPhis(fr *Frame, li *loopInfo) {
